@@ -57,10 +57,9 @@ theorem authorize_stores_authorised (cfg : Cfg) (s : St) (user client : Str) (sc
 /-- scope invariant restricted to one grant -/
 def GrantScopeInv (s : St) (g : Gr) : Prop := ∀ t ∈ s.toks, t.gid = g.id → Sub t.scope g.scope
 
-/-- `find_scope` never leaves the grant's scope (for lookups that stay inside the grant, which
-    is what `Grant.get_token` does) -/
-theorem findScope_sub (s : St) (g : Gr) (h : GrantScopeInv s g) (fuel : Nat) (b : Option Nat)
-    (hb : ∀ (b' : Nat) (t : Tok), findTok s b' = some t → t.gid = g.id) :
+/-- `find_scope` never leaves the grant's scope: the lookup stays inside the grant
+    (`Grant.get_token` only searches the grant's own `issued_token`) -/
+theorem findScope_sub (s : St) (g : Gr) (h : GrantScopeInv s g) (fuel : Nat) (b : Option Nat) :
     Sub (findScope s g fuel b) g.scope := by
   induction fuel generalizing b with
   | zero => intro x hx; simpa [findScope] using hx
@@ -73,8 +72,11 @@ theorem findScope_sub (s : St) (g : Gr) (h : GrantScopeInv s g) (fuel : Nat) (b 
       · intro x hx; exact hx
       · rename_i t ht
         split
-        · exact h t (findTok_mem ht).1 (hb bb t ht)
-        · exact ih _
+        · intro x hx; exact hx
+        · rename_i hgid
+          split
+          · exact h t (findTok_mem ht).1 (by simpa using hgid)
+          · exact ih _
 
 /-- refreshing with an explicit scope delivers only if that scope is within the bound computed
     by `find_scope` from the refresh token's ancestry — it can narrow, never widen -/
@@ -111,7 +113,8 @@ theorem refresh_never_widens (cfg : Cfg) (s : St) (client : Str) (rt : Nat) (sc 
 /-! ### the history invariant -/
 
 /-- **scope never escalates — for every history.** After ANY sequence of authorizations, code
-    redemptions (parse / process interleaved), refreshes with or without an explicit scope,
+    redemptions (parse / process interleaved), refreshes with or without an explicit scope, token
+    exchanges by the same or another client,
     revocations, logouts, removals and clock advances, every token the provider holds — code,
     access, refresh, ID token, however long its minting chain — carries a scope within the scope
     recorded for its own grant -/
@@ -122,10 +125,48 @@ theorem scope_bounded (cfg : Cfg) (ops : List Op) :
   obtain ⟨g, hg, hid⟩ := (h.sc t ht).1
   exact ⟨g, hg, hid, (h.sc t ht).2 g hg hid⟩
 
-/-- … and minting chains never leave their grant: the token a token is based on belongs to the same grant -/
-theorem chains_stay_in_grant (cfg : Cfg) (ops : List Op) :
-    ∀ t ∈ (run cfg {} ops).1.toks, ∀ b, t.basedOn = some b → ∀ bt ∈ (run cfg {} ops).1.toks, bt.id = b → bt.gid = t.gid :=
-  (run_sinv cfg ops {} sinv_init).base
+theorem mintX_new_token {cfg : Cfg} {s : St} {g : Gr} {cls : Cls} {b : Nat} {sc : List Str} {s' : St} {id : Nat}
+    (hm : mintX cfg s g cls b sc = .ok s' id) : ∃ nt ∈ s'.toks, nt.id = id ∧ nt.scope = sc ∧ nt.basedOn = some b := by
+  obtain ⟨bt, _, _, _, _, hid, rfl⟩ := mintX_ok_shape hm
+  exact ⟨_, List.mem_append_right _ (List.mem_singleton.mpr rfl), by simp [newTok, hid], by simp [newTok], by simp [newTok]⟩
+
+/-- **token exchange narrows, never widens.** Whatever client exchanges whatever token, asking for
+    whatever scope and token type: if the exchange delivers, the scope of the new token (and the
+    scope stated in the response) is within the SUBJECT TOKEN's scope and within what was asked -/
+theorem exchange_never_widens (cfg : Cfg) (s : St) (client : Str) (subj : Nat) (styp : Cls) (rtyp : Option Cls)
+    (scope : Option (List Str)) (id : Nat) (sc : List Str)
+    (h : (step cfg s (.exchange client subj styp rtyp scope)).2 = .exchanged id sc) :
+    ∃ t, findTok s subj = some t ∧ Sub sc t.scope ∧ (∀ r, scope = some r → Sub sc r) ∧
+      ∃ nt ∈ (step cfg s (.exchange client subj styp rtyp scope)).1.toks,
+        nt.id = id ∧ nt.scope = sc ∧ nt.basedOn = some subj := by
+  generalize hst : step cfg s (.exchange client subj styp rtyp scope) = r at h ⊢
+  simp only [step] at hst
+  split at hst
+  · subst hst; simp at h
+  · rename_i t ht
+    have key : Sub (xScope scope t.scope) t.scope ∧ (∀ r, scope = some r → Sub (xScope scope t.scope) r) := by
+      refine ⟨xScope_sub scope t.scope, ?_⟩
+      intro r hr x hx
+      subst hr
+      simp only [xScope, List.mem_eraseDups, List.mem_filter, Option.getD_some] at hx
+      exact hx.1
+    split at hst
+    · subst hst; simp at h
+    · repeat (first
+        | (subst hst; cases h; exact ⟨t, ht, key.1, key.2, mintX_new_token (by assumption)⟩)
+        | (subst hst; cases h)
+        | split at hst)
+
+/-- … hence, in every reachable state, what an exchange delivers is within the scope authorised
+    for the grant the subject token belongs to -/
+theorem exchange_within_original_grant (cfg : Cfg) (ops : List Op) (client : Str) (subj : Nat) (styp : Cls)
+    (rtyp : Option Cls) (scope : Option (List Str)) (id : Nat) (sc : List Str)
+    (h : (step cfg (run cfg {} ops).1 (.exchange client subj styp rtyp scope)).2 = .exchanged id sc) :
+    ∃ t, findTok (run cfg {} ops).1 subj = some t ∧
+      ∃ g ∈ (run cfg {} ops).1.grants, g.id = t.gid ∧ Sub sc g.scope := by
+  obtain ⟨t, ht, hsub, _, _⟩ := exchange_never_widens cfg _ client subj styp rtyp scope id sc h
+  obtain ⟨g, hg, hid, hs⟩ := scope_bounded cfg ops t (findTok_mem ht).1
+  exact ⟨t, ht, g, hg, hid, fun x hx => hs x (hsub x hx)⟩
 
 /-- what introspection reports for a token of a reachable state is within the grant's scope -/
 theorem introspection_scope_bounded (cfg : Cfg) (ops : List Op) (client : Str) (tok : Nat) (sc : List Str)
@@ -151,9 +192,7 @@ theorem introspection_scope_bounded (cfg : Cfg) (ops : List Op) (client : Str) (
           rw [← h]
           split
           · exact (hi.sc t htm.1).2 g hgm.1 hgm.2
-          · exact findScope_sub' s hi g hgm.1 _ _ (fun b' hb' bt hbt => by
-              have hbm := findTok_mem hbt
-              rw [hi.base t htm.1 b' hb' bt hbm.1 hbm.2, hgm.2])
+          · exact findScope_sub' s hi g hgm.1 _ _
 
 /-- the invariant is about something: the empty state satisfies it and it is carried along any run -/
 example (cfg : Cfg) (ops : List Op) : SInv (run cfg {} ops).1 := run_sinv cfg ops {} sinv_init
